@@ -102,8 +102,8 @@ class ProjectResultRegistry(ProjectRegistry):
                     ),
                     stacklevel=3,
                 )
-            previous_result_paths = self.previous_result_paths(name) or [Path(name)]
-            name = previous_result_paths[-1].stem
+            if previous_result_paths := self.previous_result_paths(name):
+                name = previous_result_paths[-1].relative_to(self.directory).as_posix()
         path = self._directory / name
         if self.is_item(path):
             return path
